@@ -21,11 +21,11 @@ func strEq(a, b string) bool {
 // literal appendString emits is read back by UnmarshalString as exactly s; in ASCII mode
 // every emitted byte is printable ASCII.
 //
-//verif:props=C25,C24 bounds=all-byte-strings<=3(quick)/4(thorough);both-outputASCII-settings maxsteps=4000000
+//verif:props=C25,C24 bounds=all-byte-strings<=2(quick)/3(thorough);both-outputASCII-settings maxsteps=4000000
 func H_C25_roundtrip() {
-	N := 3
+	N := 2
 	if nd.Thorough() {
-		N = 4
+		N = 3
 	}
 	s := nd.String(N)
 	ascii := nd.Bool()
@@ -51,6 +51,41 @@ func H_C25_roundtrip() {
 		nd.Reach("decoded")
 		nd.Assert(strEq(got, s), "round trip is byte-exact")
 	}
+}
+
+func c25roundtrip(s string, ascii bool) {
+	lit := appendString(nil, s, ascii)
+	if ascii {
+		for i := 0; i < len(lit); i++ {
+			nd.Assert(lit[i] >= 0x20 && lit[i] <= 0x7e, "ASCII mode emits only printable ASCII")
+		}
+	}
+	got, err := UnmarshalString(string(lit))
+	nd.Assert(err == nil, "emitted literal is accepted")
+	if err == nil {
+		nd.Reach("decoded")
+		nd.Assert(strEq(got, s), "round trip is byte-exact")
+	}
+}
+
+// H_C25_rune4: four bytes starting with a 4-byte-rune lead byte (0xf0..0xff): every supplementary
+// plane code point (\U escapes in ASCII mode), and every malformed continuation.
+//
+//verif:props=C25,C24 bounds=4-bytes-with-lead-byte>=0xf0;both-outputASCII-settings maxsteps=4000000
+func H_C25_rune4() {
+	s := nd.StringN(4)
+	nd.Assume(s[0] >= 0xf0)
+	c25roundtrip(s, nd.Bool())
+}
+
+// H_C25_rune3: three bytes starting with a 3-byte-rune lead byte (0xe0..0xef): the BMP above
+// U+07FF including surrogate encodings (invalid) and \u escapes.
+//
+//verif:props=C25,C24 bounds=3-bytes-with-lead-byte-0xe0..0xef;both-outputASCII-settings maxsteps=4000000
+func H_C25_rune3() {
+	s := nd.StringN(3)
+	nd.Assume(s[0] >= 0xe0 && s[0] <= 0xef)
+	c25roundtrip(s, nd.Bool())
 }
 
 // H_C25_decode_total: parseString on an arbitrary literal never panics; when it accepts, the
